@@ -490,6 +490,14 @@ func (dr *dirRepo) blobDelete(d digest.Digest, locked bool) error {
 	}
 	dr.log.Debug("blob deleted", "repo", dr.name, "digest", d.String())
 	err = os.Remove(filename)
+	if err == nil {
+		// an index entry may have lost its blob, let the next GC pass visit the repo
+		if !locked {
+			dr.mu.Lock()
+			defer dr.mu.Unlock()
+		}
+		dr.timeMod = time.Now()
+	}
 	return err
 }
 
